@@ -100,6 +100,8 @@ def _spec(size, nmenu):
 
 def _request(kind, form):
     fam = clients.FORMS[form][1]
+    if kind == "unclaimed":
+        return clients.encode(form, b"/big.bin")
     sel = {"doc": b"/big.bin", "menu": b"/menu", "error": b"/missing", "info": b"/big.bin", "dirinfo": b"/menu",
            "zipmember": b"/arch.zip/m.txt", "mboxfolder": b"/box.mbox", "mboxmsg": b"/box.mbox|/MBOX-MESSAGE/2",
            "html": b"/page.html", "maildirmsg": b"/md|/MAILDIR-MESSAGE/1", "gzdoc": b"/big.txt.gz", "script": b"/out.sh"}[kind]
@@ -122,6 +124,10 @@ def enumerate_cases(tier, seed):
             for how in ("close", "reset"):
                 for after in (0, 70000):
                     yield {"mode": "realfd", "kind": kind, "form": form, "how": how, "after": after}
+    # a protocol list without a catch-all and a request nobody claims: whatever the server answers then (today: nothing)
+    for form in ("gopher", "http", "gophers"):
+        for err in ERRORS:
+            yield {"kind": "unclaimed", "form": form, "err": err, "size": 100, "nmenu": 1, "oneshot": False}
     for kind in KINDS:
         for form in FORMS:
             for err in ERRORS:
@@ -284,11 +290,14 @@ def check_case(case, ctx):
     fails = []
     try:
         cfg = drive.make_config(root, "full", **{"handlers.dir.DirHandler::cachetime": "0"})
+        if kind == "unclaimed":
+            cfg.set("protocols.ProtocolMultiplexer", "protocols",
+                    "[gemini.GeminiProtocol]" if not tls else "[http.HTTPProtocol, gopherp.GopherPlusProtocol]")
         # fault-free run: number of write/flush calls
         w0 = FaultyWFile(None, None)
         r0 = drive.serve(cfg, req, tls=tls, wfile=w0)
         n = w0.ops
-        if r0.escaped is not None:
+        if r0.escaped is not None and kind != "unclaimed":
             return [Fail("fault-free-run-failed", "fault-free %s/%s run raised %r" % (kind, form, r0.escaped))]
         ctx.label("kind:" + kind, "form:" + form, "err:" + errname, "writes:%s" % ("1-3" if n <= 3 else "4-9" if n <= 9 else "10+"))
         ctx.sample({"kind": kind, "form": form, "err": errname, "write_calls": n}, cls=kind)
@@ -296,6 +305,8 @@ def check_case(case, ctx):
         allowed = {errcls}
         if kind == "error":
             allowed.add("FileNotFound")
+        if kind == "unclaimed":
+            allowed.add("AttributeError")  # today's code logs that nobody claimed the request as an AttributeError
         for k in range(0, n + 1):
             exc = _err(errname)
             w = FaultyWFile(k, errname, case.get("oneshot", False))
@@ -335,7 +346,7 @@ def check_case(case, ctx):
                     fails.append(Fail("not-logged:%s:%s" % (fam, errcls), "%s/%s: write %d of %d failing with %s leaves no log record of its own class: %r" % (
                         kind, form, k, n, errcls, r.logs[-3:])))
                 else:
-                    good = [l for l in own if l.startswith(drive.CLIENT[0] + " [") and ("[%s/" % _proto_class(form, kind)) in l]
+                    good = [l for l in own if l.startswith(drive.CLIENT[0] + " [") and (kind == "unclaimed" or ("[%s/" % _proto_class(form, kind)) in l)]
                     if not good:
                         fails.append(Fail("log-lacks-context:%s" % fam, "%s/%s: the %s record lacks client address or protocol class: %r" % (kind, form, errcls, own[:2])))
             leaked = {fd: t for fd, t in after.items() if fd not in before}
